@@ -10,9 +10,12 @@
   on it is evaluated through `sl` / `ix`, which yield the outcome `panic` when Go's bound check
   would fail.  Panic-freedom is therefore a theorem (`c08_no_panic`), not an artefact of totality.
 
-  The code is mirrored *including its defects* (DESIGN.md §6): F5 (the optimistic 24-byte read of a
-  `TCP6` line that is only 22/23 bytes long swallows payload bytes) and F4 (v2 PROXY command with an
-  unlisted family byte, or a command nibble other than 0/1, is accepted with nil addresses).
+  The model follows the code after the repairs of F5 and F4 (DESIGN.md §6): the optimistic read of a
+  `TCP6` line is 9 bytes (line length 22 = the shortest line, `PROXY TCP6 :: :: 1 2\r\n`), and
+  `Conn.LocalAddr`/`RemoteAddr` fall back to the socket's own address when the accepted header
+  carries no Destination/Source (v2 PROXY command with an unlisted family byte, v2 command nibble
+  other than 0/1).  Such headers are still *accepted* by the reader with nil addresses; only the
+  address selection changed.
 
   `net.ParseIP` (Go 1.23: `netip.ParseAddr` minus zones, result `As16`) and `strconv.Atoi` are
   modelled as the code uses them and validated against Go in the correspondence run (`parseip`,
@@ -366,14 +369,15 @@ def readV1Header (buf s : Bytes) : Res (Header × Bytes) := do
   else do
   let p4' ← sl buf 6 10
   if p4' == sTCP6 then do
-    let (buf, s) ← readFullInto buf s 13 24 .v1Short
-    let e ← sl buf 22 24
+    -- minimum TCP6 line `PROXY TCP6 :: :: 2 3\r\n` = 22 bytes, 13 already read: 9 more
+    let (buf, s) ← readFullInto buf s 13 22 .v1Short
+    let e ← sl buf 20 22
     if e == crlf then do
-      let b ← sl buf 0 22
+      let b ← sl buf 0 20
       let h ← parseV1Header b
       pure (h, s)
     else do
-      let (b, rest) ← readUntilCRLF buf s 24
+      let (b, rest) ← readUntilCRLF buf s 22
       let h ← parseV1Header b
       pure (h, rest)
   else do
@@ -422,8 +426,8 @@ def v2Rest (b12 fam : UInt8) (length : Nat) (s : Bytes) : Res (Header × Bytes) 
       let udp := fam.toNat % 16 == 2
       tlv { h0 with source := mkAddr udp a sp, dest := mkAddr udp d dp } 36
     else if fam == 0x31 || fam == 0x32 then .err .v2Unix
-    else tlv h0 0                                           -- F4: unlisted family, addresses stay nil
-  else tlv h0 0                                             -- F4: command ∉ {LOCAL, PROXY}
+    else tlv h0 0                                           -- unlisted family: accepted, addresses stay nil
+  else tlv h0 0                                             -- command ∉ {LOCAL, PROXY}: accepted, addresses stay nil
 
 /-- `readV2Header(buf, r)`; `buf[0:13]` already holds the first 13 bytes -/
 def readV2Header (buf s : Bytes) : Res (Header × Bytes) := do
@@ -450,7 +454,9 @@ def readHeader (s : Bytes) : Res (Header × Bytes) := do
 /-! ### `Conn`: address selection and the once-only header read -/
 
 /-- what `LocalAddr()` / `RemoteAddr()` return: the socket's own address, an address taken from
-    the header, or a nil `net.Addr` -/
+    the header, or a nil `net.Addr`.  `missing` is kept for *observations* of an implementation
+    (`Obs`, the `holds` verb: a tree without the repair of F4 returns a nil `net.Addr`); nothing in
+    the model produces it (`c08_addr_total`). -/
 inductive AddrSel where
   | sock
   | hdr (a : Addr)
@@ -463,16 +469,20 @@ inductive HdrState where
   | failed (e : Err)
   deriving DecidableEq, Repr
 
+/-- `… || c.header.Source == nil { return c.Conn.RemoteAddr() }; return c.header.Source`
+    (likewise `Destination`): an absent header address selects the socket's own -/
 def ofOpt : Option Addr → AddrSel
   | some a => .hdr a
-  | none => .missing
+  | none => .sock
 
-/-- `Conn.RemoteAddr` after the header read -/
+/-- `Conn.RemoteAddr` after the header read:
+    `if c.headerErr != nil || c.header.IsLocal || c.header.Source == nil { return c.Conn.RemoteAddr() }` -/
 def remoteSel : HdrState → AddrSel
   | .failed _ => .sock
   | .ok h => if h.isLocal then .sock else ofOpt h.source
 
-/-- `Conn.LocalAddr` after the header read -/
+/-- `Conn.LocalAddr` after the header read:
+    `if c.headerErr != nil || c.header.IsLocal || c.header.Destination == nil { return c.Conn.LocalAddr() }` -/
 def localSel : HdrState → AddrSel
   | .failed _ => .sock
   | .ok h => if h.isLocal then .sock else ofOpt h.dest
@@ -646,7 +656,8 @@ def unknownHdr (b : Bytes) : Header :=
 def v2Head (b12 fam l1 l2 : UInt8) : Bytes := v2Ident ++ [b12, fam, l1, l2]
 
 /-- what a v2 header (version/command byte `b12`, family byte `fam`, remainder `body`) makes the
-    reader report.  For the classes of F4 (unlisted family, command ≥ 2) the addresses are absent. -/
+    reader report.  For a PROXY command with an unlisted family and for a command nibble ≥ 2 the
+    addresses are absent (`Conn` then reports the socket's own, `ofOpt`). -/
 def v2Hdr (b12 fam : UInt8) (body : Bytes) : Header :=
   let h0 : Header := { source := none, dest := none, isLocal := false, version := 2, rawTLVs := [], unknown := [] }
   let cmd := b12.toNat % 16
@@ -672,14 +683,15 @@ def v2Refusal (b12 fam : UInt8) (n : Nat) : Option Err :=
     else none
   else none
 
-/-- Known-finding classes, decided from the input alone. -/
+/-- Regression shapes (the input classes of the repaired defects F5 and F4), decided from the input
+    alone.  They no longer excuse anything: the harness only counts how often they are exercised. -/
 def isV1ShortTcp6 (bs : Bytes) : Bool :=
   (v1Ident ++ sTCP6).isPrefixOf bs &&
   match firstCRLFEnd bs with
   | some n => n < 24
   | none => false
 
-/-- v2 header accepted without addresses although it is not LOCAL (F4) -/
+/-- v2 header accepted without addresses although it is not LOCAL (the shape of F4) -/
 def isV2NilAddr (bs : Bytes) : Bool :=
   v2Ident.isPrefixOf bs &&
   match bs[12]?, bs[13]? with
@@ -785,7 +797,8 @@ def obsOf (bs : Bytes) : Obs :=
   | .ok (h, rest) => ⟨true, remoteSel (.ok h), localSel (.ok h), rest⟩
   | _ => ⟨false, .sock, .sock, []⟩
 
-def knownClass (bs : Bytes) : String :=
+/-- name of the regression shape an input falls in (`-` = none); informational only -/
+def regressionShape (bs : Bytes) : String :=
   if isV1ShortTcp6 bs then "v1-short-tcp6" else if isV2NilAddr bs then "v2-nil-addr" else "-"
 
 /-- `payload` is what follows position `k` for some `k ≥ n` -/
